@@ -1,4 +1,4 @@
-(* Dataset/Handle.v — operations made through ONE long-lived ParquetFile handle (properties C09 / C07, wave 3).
+(* Dataset/DsHandle.v — operations made through ONE long-lived ParquetFile handle (properties C09 / C07, wave 3).
 
    A handle carries its OWN copy of the summary (pf.fmd: row-group list + num_rows); `write_row_groups` / `remove_row_groups`
    compute from the HANDLE's summary (part numbers via find_max_part of the handle's row groups, the list that is sorted,
